@@ -33,12 +33,23 @@ structure Acct where
   writable : Bool
 deriving Repr, DecidableEq
 
+/-- One flag check of a single account's validation. -/
+inductive Chk
+  | signer      -- `check_signer`   (`Signer<_>`)
+  | writable    -- `check_writable` (`Mut<_>`)
+deriving Repr, DecidableEq
+
 /-- Shapes of account sets built from the framework's building blocks. -/
 inductive SetShape
   /-- a `SingleAccountSet`: `AccountInfo` under any stack of `Signer`/`Mut`, `Program<P>`, `Sysvar<S>`;
-  `signer`/`writable` are its static `SingleSetMeta`; `fixedKey` is the address validation requires
-  (and the client's default key for a bare `Program`/`Sysvar`). -/
-  | single (signer writable : Bool) (fixedKey : Option Key)
+  `signer`/`writable` are its static `SingleSetMeta` (what client and CPI metas carry); `fixedKey`
+  is the address validation requires (and the client's default key for a bare `Program`/`Sysvar`);
+  `checks` are the flag checks validation runs, in execution order (inner wrapper first:
+  `Signer<Mut<_>>` is `[writable, signer]`). For the framework's wrappers the meta covers the checks
+  (`metaCovers`), but `SingleSetMeta` is free-form (`#[single_account_set(meta = …)]`), and before
+  the /repo fix of `MaybeSigner`/`MaybeMut` a pass-through wrapper reset the flag of a checking one
+  below it (`MaybeSigner<false, Signer<T>>`: `signer = false`, `checks = [signer]`). -/
+  | single (signer writable : Bool) (fixedKey : Option Key) (checks : List Chk)
   | opt (s : SetShape)
   | vec (s : SetShape)
   | arr (n : Nat) (s : SetShape)
@@ -90,7 +101,7 @@ def placeholder (pid : Key) : Meta := { key := pid, signer := false, writable :=
 mutual
 /-- `ClientAccountSet::extend_account_metas` (the metas pushed, in order). -/
 def clientMetas (pid : Key) : SetShape → ClientVal → List Meta
-  | .single sg wr fk, .key k => [{ key := k.getD (fk.getD []), signer := sg, writable := wr }]
+  | .single sg wr fk _, .key k => [{ key := k.getD (fk.getD []), signer := sg, writable := wr }]
   | .opt _, .absent => [placeholder pid]
   | .opt s, .present v => clientMetas pid s v
   | .vec s, .many vs => vs.flatMap (clientMetas pid s)
@@ -209,13 +220,16 @@ def allOk {α : Type} (f : α → Except VErr Unit) : List α → Except VErr Un
     | .error e => .error e
     | .ok () => allOk f xs
 
+/-- the flag checks of one account, first failure wins -/
+def runChecks : List Chk → Acct → Except VErr Unit
+  | [], _ => .ok ()
+  | .signer :: cs, a => if a.signer then runChecks cs a else .error .signer
+  | .writable :: cs, a => if a.writable then runChecks cs a else .error .writable
+
 mutual
 def validate : SetShape → SetVal → Except VErr Unit
-  | .single sg wr fk, .acct a =>
-    if fk.isSome ∧ fk ≠ some a.key then .error .key
-    else if sg ∧ ¬ a.signer then .error .signer
-    else if wr ∧ ¬ a.writable then .error .writable
-    else .ok ()
+  | .single _ _ fk checks, .acct a =>
+    if fk.isSome ∧ fk ≠ some a.key then .error .key else runChecks checks a
   | .opt _, .absent => .ok ()
   | .opt s, .present v => validate s v
   | .vec s, .many vs => allOk (validate s) vs
@@ -238,7 +252,7 @@ end
 mutual
 /-- `CpiAccountSet::write_account_metas` on `to_cpi_accounts` of a decoded set. -/
 def cpiMetas (pid : Key) : SetShape → SetVal → List Meta
-  | .single sg wr _, .acct a => [{ key := a.key, signer := sg, writable := wr }]
+  | .single sg wr _ _, .acct a => [{ key := a.key, signer := sg, writable := wr }]
   | .opt _, .absent => [placeholder pid]
   | .opt s, .present v => cpiMetas pid s v
   | .vec s, .many vs => vs.flatMap (cpiMetas pid s)
@@ -310,12 +324,12 @@ def accountLenFields : List SetShape → Nat
 end
 
 mutual
-/-- `CpiAccountSet::ContainsOption`. NB `[T; N]` says `False` whatever `T` says (array.rs:21). -/
+/-- `CpiAccountSet::ContainsOption` (arrays propagate their element's since /repo cf061c0). -/
 def containsOption : SetShape → Bool
   | .single .. => false
   | .opt _ => true
   | .vec s => containsOption s
-  | .arr _ _ => false
+  | .arr _ s => containsOption s
   | .boxed s => containsOption s
   | .struct fs => containsOptionFields fs
   | .rest s => containsOption s
@@ -372,7 +386,7 @@ end
 mutual
 /-- The client value with default keys filled in. -/
 def resolve : SetShape → ClientVal → ClientVal
-  | .single _ _ fk, .key k => .key (some (k.getD (fk.getD [])))
+  | .single _ _ fk _, .key k => .key (some (k.getD (fk.getD [])))
   | .opt _, .absent => .absent
   | .opt s, .present v => .present (resolve s v)
   | .vec s, .many vs => .many (vs.map (resolve s))
@@ -406,7 +420,7 @@ end
 mutual
 /-- the client value has the shape's `ClientAccounts` type -/
 def typed : SetShape → ClientVal → Bool
-  | .single _ _ fk, .key k => k.isSome || fk.isSome
+  | .single _ _ fk _, .key k => k.isSome || fk.isSome
   | .opt _, .absent => true
   | .opt s, .present v => typed s v
   | .vec s, .many vs => vs.all (typed s)
@@ -470,7 +484,7 @@ lengths), and the side conditions of the round trip hold:
 * `Rest` occurs only in tail position (it swallows every remaining account) and each of its elements
   uses at least one account (otherwise the `while` loop never ends). -/
 def fits (pid : Key) : SetShape → DecodeArg → ClientVal → Bool
-  | .single _ _ fk, .unit, .key k => k.isSome || fk.isSome
+  | .single _ _ fk _, .unit, .key k => k.isSome || fk.isSome
   | .opt _, _, .absent => true
   | .opt s, a, .present v => fits pid s a v && headNotPid pid (clientMetas pid s v)
   | .vec s, .len n inner, .many vs => vs.length == n && restFree s && vs.all (fits pid s inner)
@@ -486,9 +500,24 @@ def fitsFields (pid : Key) : List SetShape → List DecodeArg → List ClientVal
 end
 
 mutual
+/-- the static meta of every single account covers what its validation checks -/
+def metaCovers : SetShape → Bool
+  | .single sg wr _ checks => checks.all (fun c => match c with | .signer => sg | .writable => wr)
+  | .opt s => metaCovers s
+  | .vec s => metaCovers s
+  | .arr _ s => metaCovers s
+  | .boxed s => metaCovers s
+  | .struct fs => metaCoversFields fs
+  | .rest s => metaCovers s
+def metaCoversFields : List SetShape → Bool
+  | [] => true
+  | s :: fs => metaCovers s && metaCoversFields fs
+end
+
+mutual
 /-- no explicit client key contradicts a fixed address -/
 def addrOk : SetShape → ClientVal → Bool
-  | .single _ _ fk, .key k => fk.isNone || k.isNone || k == fk
+  | .single _ _ fk _, .key k => fk.isNone || k.isNone || k == fk
   | .opt _, .absent => true
   | .opt s, .present v => addrOk s v
   | .vec s, .many vs => vs.all (addrOk s)
@@ -548,24 +577,9 @@ def optFreeFields : List SetShape → Bool
 end
 
 mutual
-/-- no `Option` below an array (the shapes for which `ContainsOption` tells the truth) -/
-def arrOptFree : SetShape → Bool
-  | .single .. => true
-  | .opt s => arrOptFree s
-  | .vec s => arrOptFree s
-  | .arr _ s => optFree s
-  | .boxed s => arrOptFree s
-  | .struct fs => arrOptFreeFields fs
-  | .rest s => arrOptFree s
-def arrOptFreeFields : List SetShape → Bool
-  | [] => true
-  | s :: fs => arrOptFree s && arrOptFreeFields fs
-end
-
-mutual
 /-- the static `(signer, writable)` requirements of the single accounts of a shape -/
 def staticFlags : SetShape → List (Bool × Bool)
-  | .single sg wr _ => [(sg, wr)]
+  | .single sg wr _ _ => [(sg, wr)]
   | .opt s => staticFlags s
   | .vec s => staticFlags s
   | .arr _ s => staticFlags s
